@@ -33,6 +33,12 @@ def jobs_for(tier, rng):
             job["calls"] = rng.choice([[1, 1, 1, 1], [2, 2], [1, 3], [3, 1]])
             job["twin_calls"] = [4]
         jobs.append(job)
+    # thousands of dense states in several batches per device (judged in full)
+    for k, ng in enumerate([1500] if tier == "quick" else [1500, 5000]):
+        m = gen.union(rng, ng, PD=2, na=2, ne=2, rmax=3, v0max=2, plain=True, chain=True)
+        jobs.append({"mdp": m, "kind": "SAVI", "gamma": [1, 2], "eps": [1, 6], "test": "span", "calls": [2],
+                     "mbs": rng.choice([512, 1000]), "shuffle": k % 2 == 0, "seed": 77 + k, "tag": f"savi-dense{ng}",
+                     "min_sweeps": 2})
     # beyond the default iteration limit (2000): integer-valued undiscounted rings never leave the 32-bit range
     for k in range(1 if tier == "quick" else 3):
         m = gen.ring(rng, rng.randint(3, 5), extra=rng.randint(3, 4), v0max=1, rmax=2)
